@@ -27,7 +27,7 @@ var feeRates = []uint64{0, 250, 1000, 1000, 1001, 2000, 3000, 5000, 20000, 10000
 type stats struct {
 	checks, submitted, admitted, replaced, minedBlocks, minedTxs, undoneTxs int
 	parentChild, diamond, orphanResolved, evicted, expired, savedNonEmpty   bool
-	reorgWithPool, minedWithExtras, minedPartial, bigReplace, restart      bool
+	reorgWithPool, minedWithExtras, minedPartial, bigReplace, restart       bool
 	rejected                                                                map[byte]int
 	excluded                                                                []string
 	labels                                                                  map[string]bool
@@ -93,16 +93,17 @@ type poolTx struct {
 }
 
 type run struct {
-	c        Case
-	s        *sim.Sim
-	st       *stats
-	built    map[[32]byte]*built
-	order    [][32]byte
-	withheld [][32]byte
-	extra    uint64
-	unknown  uint64
-	blockTxs map[*sim.MNode][][32]byte
-	step     int
+	c         Case
+	s         *sim.Sim
+	st        *stats
+	built     map[[32]byte]*built
+	order     [][32]byte
+	withheld  [][32]byte
+	extra     uint64
+	unknown   uint64
+	blockTxs  map[*sim.MNode][][32]byte
+	step      int
+	lastFault string
 }
 
 var cfgOnce sync.Once
@@ -1196,6 +1197,10 @@ func (r *run) saveLoad(op Op) error {
 	before := snapshotPoolLocked()
 	txpool.TxMutex.Unlock()
 	txpool.MempoolSave(true)
+	faulted, ferr := r.faultFile(op, len(before))
+	if ferr != nil {
+		return ferr
+	}
 	if op.Arg&1 != 0 {
 		// a restart: the chain is closed and opened again between saving and loading
 		if err := r.s.Step(sim.Op{Kind: "reopen"}); err != nil {
@@ -1205,22 +1210,51 @@ func (r *run) saveLoad(op Op) error {
 		r.syncLast()
 		r.st.restart = true
 	}
-	if !txpool.MempoolLoad() {
+	if faulted || op.Arg&1 != 0 {
+		// what a freshly started process would not have
+		txpool.TxMutex.Lock()
+		txpool.TransactionsPending = make(map[btc.BIDX]bool)
+		txpool.CurrentFeeAdjustedSPKB = 0
+		txpool.VerifResetTimers()
+		txpool.TxMutex.Unlock()
+	}
+	loaded := txpool.MempoolLoad()
+	if !loaded && !faulted {
 		return fmt.Errorf("MempoolLoad() refused the file MempoolSave(true) had just written at the same tip")
 	}
 	txpool.TxMutex.Lock()
 	after := snapshotPoolLocked()
+	nSpent, nRej := len(txpool.SpentOutputs), len(txpool.TransactionsRejected)
 	txpool.TxMutex.Unlock()
+	how := ""
+	if faulted {
+		how = fmt.Sprintf(" [the file was damaged between save and load: %s; MempoolLoad() returned %v]", r.lastFault, loaded)
+		if loaded {
+			r.st.label("load_accepted_damaged_file")
+		} else {
+			r.st.label("load_refused_damaged_file")
+		}
+		// the node runs on with whatever MempoolLoad left behind: the empty pool, or everything that was saved
+		if len(after) == 0 {
+			if nSpent != 0 {
+				return fmt.Errorf("save + load: the pool is empty but SpentOutputs keeps %d entries%s", nSpent, how)
+			}
+			if nRej != 0 && !loaded {
+				return fmt.Errorf("save + load: the pool is empty after a refused load but %d rejected records were kept%s", nRej, how)
+			}
+			return r.check(op)
+		}
+	}
 	if len(before) > 0 {
 		r.st.savedNonEmpty = true
 	}
 	if len(after) != len(before) {
-		return fmt.Errorf("save + load: %d transactions before, %d after", len(before), len(after))
+		return fmt.Errorf("save + load: %d transactions before, %d after%s", len(before), len(after), how)
 	}
 	for id, a := range before {
 		b, ok := after[id]
 		if !ok {
-			return fmt.Errorf("save + load: transaction %x is gone", revHex(id))
+			return fmt.Errorf("save + load: transaction %x is gone%s", revHex(id), how)
 		}
 		if !bytes.Equal(a.raw, b.raw) {
 			return fmt.Errorf("save + load: transaction %x came back with different bytes", revHex(id))
@@ -1230,10 +1264,138 @@ func (r *run) saveLoad(op Op) error {
 				a.fee, a.volume, a.sigops, a.local, a.final, b.fee, b.volume, b.sigops, b.local, b.final)
 		}
 		if a.memInputCnt != b.memInputCnt || fmt.Sprint(a.memInputs) != fmt.Sprint(b.memInputs) {
-			return fmt.Errorf("save + load: transaction %x: MemInputs %v (%d) became %v (%d)", revHex(id), a.memInputs, a.memInputCnt, b.memInputs, b.memInputCnt)
+			return fmt.Errorf("save + load: transaction %x: MemInputs %v (%d) became %v (%d)%s", revHex(id), a.memInputs, a.memInputCnt, b.memInputs, b.memInputCnt, how)
 		}
 	}
 	return r.check(op)
+}
+
+// faultFile damages mempool.dmp between save and load (op.Fault: 1 truncate, 2 flip a byte, 3 remove the file;
+// op.Off selects where).  The fault model is a crash, a kill or a full disk during the non-atomic MempoolSave
+// (truncation at any offset) plus a lost file; byte flips are confined to bytes the format lets the loader verify
+// (block hash, version field, end marker) - the file carries no checksum, so a flipped payload byte is outside what
+// the node can notice and is not asserted.
+func (r *run) faultFile(op Op, nSaved int) (bool, error) {
+	if op.Fault == 0 {
+		return false, nil
+	}
+	fn := common.GocoinHomeDir + txpool.MEMPOOL_FILE_NAME
+	data, err := os.ReadFile(fn)
+	if err != nil {
+		return false, fmt.Errorf("MempoolSave(true) left no %s: %v", txpool.MEMPOOL_FILE_NAME, err)
+	}
+	size := len(data)
+	// layout: 32 bytes tip hash | version | count | count x (len, raw, 56 bytes) | count | rejected records | END_OF_FILE
+	vlen := func(p int) (uint64, int) {
+		if p >= size {
+			return 0, size
+		}
+		switch b := data[p]; {
+		case b < 0xfd:
+			return uint64(b), p + 1
+		case b == 0xfd && p+3 <= size:
+			return uint64(data[p+1]) | uint64(data[p+2])<<8, p + 3
+		case b == 0xfe && p+5 <= size:
+			return uint64(data[p+1]) | uint64(data[p+2])<<8 | uint64(data[p+3])<<16 | uint64(data[p+4])<<24, p + 5
+		case b == 0xff && p+9 <= size:
+			v := uint64(0)
+			for i := 0; i < 8; i++ {
+				v |= uint64(data[p+1+i]) << (8 * uint(i))
+			}
+			return v, p + 9
+		}
+		return 0, size
+	}
+	_, verEnd := vlen(32)
+	cnt, hdrEnd := vlen(verEnd)
+	p := hdrEnd
+	var txStarts, txEnds []int
+	for i := uint64(0); i < cnt && p < size; i++ {
+		l, q := vlen(p)
+		txStarts = append(txStarts, p)
+		p = q + int(l) + 56
+		if p > size {
+			p = size
+		}
+		txEnds = append(txEnds, p)
+	}
+	secEnd := p
+	marker := size - len(txpool.END_MARKER)
+	switch op.Fault {
+	case 3:
+		os.Remove(fn)
+		r.lastFault = "file removed"
+		r.st.label("load_file_removed")
+		return true, nil
+	case 2:
+		var spots []int
+		for i := 0; i < 32; i++ {
+			spots = append(spots, i)
+		}
+		for i := 32; i < verEnd; i++ {
+			spots = append(spots, i)
+		}
+		for i := marker; i < size; i++ {
+			spots = append(spots, i)
+		}
+		at := spots[mod(op.Off, len(spots))]
+		data[at] ^= 1 << uint(mod(op.Off/7, 8))
+		if err := os.WriteFile(fn, data, 0o660); err != nil {
+			return false, err
+		}
+		r.lastFault = fmt.Sprintf("byte %d of %d flipped", at, size)
+		r.st.label("load_flipped_byte")
+		return true, nil
+	}
+	// truncation
+	cands := []int{0, 1, 31, 32, verEnd, hdrEnd - 1, hdrEnd, secEnd, secEnd + 1, marker, marker + 5, size - 1}
+	for i := range txStarts {
+		cands = append(cands, txStarts[i]+1, (txStarts[i]+txEnds[i])/2, txEnds[i]-57, txEnds[i]-1, txEnds[i])
+	}
+	if secEnd+1 < marker {
+		cands = append(cands, (secEnd+marker)/2)
+	}
+	// pick the region first (header / saved transactions / rejected records / end marker), then a structural
+	// offset inside it or any offset of it
+	regions := [][2]int{{0, hdrEnd}, {hdrEnd, secEnd}, {hdrEnd, secEnd}, {hdrEnd, secEnd}, {secEnd, marker}, {secEnd, marker}, {marker, size}, {marker, size}}
+	reg := regions[mod(op.Off, len(regions))]
+	for i := 1; reg[0] >= reg[1] && i <= len(regions); i++ {
+		reg = regions[mod(op.Off+i, len(regions))]
+	}
+	var in []int
+	for _, c := range cands {
+		if c >= reg[0] && c < reg[1] {
+			in = append(in, c)
+		}
+	}
+	at := reg[0] + mod(op.Off/8, reg[1]-reg[0])
+	if len(in) > 0 && (op.Off/8)%3 != 0 {
+		at = in[mod(op.Off/24, len(in))]
+	}
+	if at < 0 {
+		at = 0
+	}
+	if at >= size {
+		at = size - 1
+	}
+	if err := os.Truncate(fn, int64(at)); err != nil {
+		return false, err
+	}
+	where := "header"
+	switch {
+	case at >= marker:
+		where = "end_marker"
+	case at >= secEnd:
+		where = "rejected_section"
+	case at >= hdrEnd:
+		where = "transaction_section"
+	}
+	r.lastFault = fmt.Sprintf("truncated to %d of %d bytes, in the %s", at, size, where)
+	r.st.label("load_truncated_in_" + where)
+	if where == "transaction_section" && nSaved > 0 {
+		r.st.label("load_truncated_inside_saved_transactions")
+	}
+	return true, nil
 }
 
 func revHex(h [32]byte) []byte {
